@@ -112,6 +112,38 @@ pub fn drive(t: &mut Tracer, tier: &str, seed: u64) {
                 if ska == skb { Ok(()) } else { Err("keys differ".into()) } }); }
         }
     }
+    // --- LONG inputs: the hash-to-range and KDF helpers at every length up to 1100 (thorough: 2200) -- assembled-input scratch buffers of
+    //     512 / 1024 / 2048 bytes have their edge wherever prefix + data + w + counter happens to end --, and the message-consuming
+    //     signature operations at the ladders around those edges (SM9: 1 + |M| + 384 + 4 bytes are hashed; SM2: 32 + |M|) ---
+    {
+        let top = if thorough { 2200usize } else { 1100 };
+        let w384 = rng.bytes(384);
+        for l in 201..=top {
+            let data = rng.bytes(l);
+            { let (d, w) = (data.clone(), w384.clone()); call(t, &mut n, "sm9.hash2", "long", l, move || { let _ = gm_sm9::key::verif_hash2(&d, &w); Ok::<(), String>(()) }); }
+            if thorough || l % 2 == 1 { let d = data.clone(); call(t, &mut n, "sm9.hash1", "long", l, move || { let _ = gm_sm9::key::verif_hash1(&d, 2); Ok::<(), String>(()) }); }
+            if thorough || l % 2 == 0 { let d = data.clone(); call(t, &mut n, "sm9.kdf", "long", l, move || { let _ = gm_sm9::key::verif_kdf(&d, 48); Ok::<(), String>(()) }); }
+            if thorough || l % 3 == 0 { let d = data.clone(); call(t, &mut n, "sm2.kdf", "long", l, move || { let _ = gm_sm2::util::kdf(&d, 48); Ok::<(), String>(()) }); }
+            if thorough || l % 3 == 1 { let d = data.clone(); call(t, &mut n, "sm9.from_hash", "long", l, move || { let _ = gm_sm9::fields::mod_n_from_hash(&d); Ok::<(), String>(()) }); }
+        }
+        for l in 0..=200usize { let (d, w) = (rng.bytes(l), w384.clone()); call(t, &mut n, "sm9.hash2", "random", l, move || { let _ = gm_sm9::key::verif_hash2(&d, &w); Ok::<(), String>(()) }); }
+        let ks = gm_sm9::u256::u256_from_be_bytes(&[5u8; 32]);
+        let smk = gm_sm9::key::Sm9SignMasterKey { ks, ppubs: gm_sm9::points::TwistPoint::g_mul(&ks) };
+        let skey = smk.extract_key(b"signer");
+        let mut ladder: Vec<usize> = vec![];
+        for edge in [512usize, 1024, 2048, 4096] { for d in 0..=(if thorough { 12 } else { 6 }) { for off in [0usize, 32, 384 + 5] { if edge >= off + d { ladder.push(edge - off - d); ladder.push(edge - off + d); } } } }
+        ladder.sort(); ladder.dedup();
+        for l in ladder {
+            let m = rng.bytes(l);
+            if let Some(sk) = skey {
+                { let mm = m.clone(); call(t, &mut n, "sm9.sign_msg", "ladder", l, move || e(sk.sign(&mm))); }
+                // a forged (h, S): H2 is evaluated before the comparison
+                { let (mk, mm) = (smk, m.clone()); call(t, &mut n, "sm9.verify_msg", "ladder", l, move || { let _ = mk.verify_sign(b"signer", &mm, &[7, 0, 0, 0], &gm_sm9::points::Point::g_mul(&[11, 0, 0, 0])); Ok::<(), String>(()) }); }
+            }
+            { let (p, mm) = (pk.clone(), m.clone()); call(t, &mut n, "sm2.verify_msg", "ladder", l, move || { let _ = p.verify(None, &mm, &[7u8; 64]); Ok::<(), String>(()) }); }
+            { let (k, mm) = (key.sk.clone(), m.clone()); call(t, &mut n, "sm2.sign_msg", "ladder", l, move || e(k.sign(None, &mm))); }
+        }
+    }
     // --- truncations and single-byte corruptions of valid encodings ---
     let spki = pk.to_public_key_der().unwrap().as_bytes().to_vec();
     let p8 = key.sk.to_pkcs8_der().unwrap().as_bytes().to_vec();
